@@ -8,8 +8,14 @@
      fn 3: decode11 [VB wire] -> VL [] | VL [VL msgs]          (strict RFC 6242 receiver, Spec/WireSpec.v)
      fn 4: decode10 [VB wire] -> VL [] | VL [VL msgs]          (strict RFC 4742 receiver)
      fn 5: write_loop [VB data; VL answers] -> VL [VB taken; result; VN unused answers]
-             result: VL [VN 0] done | VL [VN 3; VN kind; VB unsent] | VL [VN 2; VB unsent] starved *)
-From NC Require Import Model.Base Model.Writer Spec.WireSpec.
+             result: VL [VN 0] done | VL [VN 3; VN kind; VB unsent] | VL [VN 2; VB unsent] starved
+     fn 6: WriterSched.run [VN base; VN pending; VL progs; VL labels]   (trace validation, tools/harness/wr_check.py)
+             label: [0;t;b] LChk | [1;t;VB m] LPut | [2;b] LSetBase | [3;b] LEmpty | [4;b] LReady | [5;VB m] LGet | [6;b] LPendRd
+                    | [7] LPendClr | [8;b] LBaseRd | [9;VB offered;answer] LWrite | [10] LSelect | [11;kind;VB unsent] LDispErr | [12] LClose
+             -> VL [VN 0; VN i] label i is not accepted
+              | VL [VN 1; VB wire; VL puts; VL q; VN wpc; err; VN connected; VN frames done; VN base; VN pending; VL subs]
+                   entry: VL [VN thread; VB msg; VN tag]   err: VL [] | VL [VN kind; VB unsent]   sub: VL [VN pc; VN remaining] *)
+From NC Require Import Model.Base Model.Writer Spec.WireSpec Model.WriterSched.
 
 Definition unVB (v : val) : bytes := match v with VB b => b | _ => [] end.
 Definition unVBs (v : val) : list bytes := match v with VL l => map unVB l | _ => [] end.
@@ -33,8 +39,52 @@ Definition enc_wres (r : wres) : val :=
 Definition enc_opt (o : option (list bytes)) : val :=
   match o with None => VL [] | Some l => VL [VL (map VB l)] end.
 
+Definition un_label (v : val) : option label :=
+  match v with
+  | VL [VN 0; VN t; VN b] => Some (LChk (N.to_nat t) (negb (b =? 0)))
+  | VL [VN 1; VN t; VB m] => Some (LPut (N.to_nat t) m)
+  | VL [VN 2; VN b] => Some (LSetBase (un_base b))
+  | VL [VN 3; VN b] => Some (LEmpty (negb (b =? 0)))
+  | VL [VN 4; VN b] => Some (LReady (negb (b =? 0)))
+  | VL [VN 5; VB m] => Some (LGet m)
+  | VL [VN 6; VN b] => Some (LPendRd (negb (b =? 0)))
+  | VL [VN 7] => Some LPendClr
+  | VL [VN 8; VN b] => Some (LBaseRd (un_base b))
+  | VL [VN 9; VB d; a] => Some (LWrite d (un_answer a))
+  | VL [VN 10] => Some LSelect
+  | VL [VN 11; VN 0; VB u] => Some (LDispErr (SessionClose u))
+  | VL [VN 11; VN 1; VB u] => Some (LDispErr (TransportExc u))
+  | VL [VN 12] => Some LClose
+  | _ => None
+  end.
+Fixpoint srun (s : wstate) (ls : list val) (i : N) : wstate + N :=
+  match ls with
+  | [] => inl s
+  | v :: r =>
+      match un_label v with
+      | Some l => match wstep s l with Some s' => srun s' r (i + 1) | None => inr i end
+      | None => inr i
+      end
+  end.
+Definition enc_base (b : base) : val := VN (match b with B10 => 0 | B11 => 1 end).
+Definition enc_entry (e : entry) : val := VL [VN (N.of_nat (e_thr e)); VB (e_msg e); enc_base (e_tag e)].
+Definition enc_wpc (w : wpc) : N :=
+  match w with
+  | PTop => 0 | PRdy => 1 | PGet => 2 | PPend _ => 3 | PClr _ => 4 | PBase _ => 5 | PWr _ _ => 6 | PSel => 7
+  | PRaised _ _ => 8 | PClosing _ => 9 | PDone _ => 10
+  end.
+Definition enc_sub (x : sub) : val :=
+  VL [VN (match sb_pc x with SIdle => 0 | SChecked => 1 | SRefused => 2 end); VN (N.of_nat (length (sb_prog x)))].
+
 Definition run (v : val) : val :=
   match v with
+  | VL [VN 6; VN b; VN pend; VL progs; VL labels] =>
+      match srun (winit (un_base b) (negb (pend =? 0)) (map unVBs progs)) labels 0 with
+      | inr i => VL [VN 0; VN i]
+      | inl s => VL [VN 1; VB (ws_wire s); VL (map enc_entry (ws_puts s)); VL (map enc_entry (ws_q s)); VN (enc_wpc (ws_w s));
+                     match ws_err s with None => VL [] | Some e => VL (enc_err e) end; vbool (ws_conn s);
+                     VN (N.of_nat (ws_ndone s)); enc_base (ws_base s); vbool (ws_pending s); VL (map enc_sub (ws_subs s))]
+      end
   | VL [VN 1; VN b; VB m] => VB (frame (un_base b) m)
   | VL [VN 2; VN b; msgs; readys; answers] =>
       let '(w, st) := worker (un_base b) (unVBs msgs) (un_list un_bool readys) (un_list un_answer answers) in
